@@ -1,4 +1,63 @@
-(* placeholder until the proofs are integrated *)
-From LLTD Require Import BufProofs.
-Theorem C18_placeholder : True. Proof. exact I. Qed.
-Print Assumptions C18_placeholder.
+(* C18: platform faults degrade gracefully.
+   Statements only: each theorem restates the full type of a lemma proved in coq/proofs and is closed by
+   `exact`; Print Assumptions beneath.  Regenerate with bin/genprops.py after a lemma changes. *)
+From LLTD Require Import BlockFun BlockSafe PropsMapper FaultProofs.
+
+Theorem C18_no_fault_any_oracle :
+  forall (af sf : N -> bool) (junk : N) (cfgs : N -> pcfg) (g : gcfg) (l : list fop)
+  (r : registry) (w : world) (bl : nat) (bb : N),
+  Forall (fop_ok cfgs) l ->
+  ledger_reg bl bb r w ->
+  reg_bounded g r ->
+  exists (r' : registry) (w' : world),
+  run_frames af sf junk cfgs g r l w = Ok r' w' /\ ledger_reg bl bb r' w' /\ reg_bounded g r'.
+Proof. exact safe_history. Qed.
+Print Assumptions C18_no_fault_any_oracle.
+
+Theorem C18_step_any_oracle :
+  forall (af sf : N -> bool) (junk ctx : N) (c : pcfg) (g : gcfg) (s : ist)
+  (buf : list N) (w : world) (bl : nat) (bb : N),
+  cfg_ok c ->
+  length buf = o (c_rxsize c) ->
+  ledger_frame bl bb s w ->
+  st_bounded g s ->
+  exists (s' : ist) (w' : world),
+  parse_frame_st af sf junk ctx c g s buf w = Ok s' w' /\
+  ledger_frame bl bb s' w' /\ st_bounded g s' /\ w_now w' = w_now w.
+Proof. exact safe_step. Qed.
+Print Assumptions C18_step_any_oracle.
+
+Theorem C18_reset_restores_fresh_any_oracle :
+  forall (af sf : N -> bool) (junk ctx : N) (c : pcfg) (g : gcfg) (s : ist)
+  (buf : list N) (h : hdr) (w : world) (bl : nat) (bb : N),
+  cfg_ok c ->
+  length buf = o (c_rxsize c) ->
+  ledger_frame bl bb s w ->
+  parse_hdr buf = Some h ->
+  h_tos h = tos_discovery ->
+  h_opc h = opcode_reset ->
+  exists (s' : ist) (w' : world),
+  parse_frame_st af sf junk ctx c g s buf w = Ok s' w' /\
+  norm s' = fresh /\ w_live w' = bl /\ w_bytes w' = bb /\ w_trace w' = w_trace w /\ w_now w' = w_now w.
+Proof. exact reset_any_oracle. Qed.
+Print Assumptions C18_reset_restores_fresh_any_oracle.
+
+Theorem C18_then_behaves_like_fresh :
+  forall (ctx : N) (c : pcfg) (g : gcfg) (mtu : N) (s : ist) (hist : list (list N))
+  (rbuf : list N) (h : hdr) (cont : list (list N)),
+  parse_hdr rbuf = Some h ->
+  h_tos h = tos_discovery ->
+  h_opc h = opcode_reset ->
+  snd (f_run ctx c g mtu (fst (f_step ctx c g mtu (fst (f_run ctx c g mtu s hist)) rbuf)) cont) =
+  snd (f_run ctx c g mtu fresh cont).
+Proof. exact C09_history. Qed.
+Print Assumptions C18_then_behaves_like_fresh.
+
+Theorem C18_constructors_report_failure :
+  forall (af : N -> bool) (k : Sys.ctor_kind) (w : world),
+  exists (obj extra : bool) (st : N) (w' : world),
+  Sys.run_ctor af k w = Ok (Sys.RCtor obj extra st) w' /\
+  w_live w' = w_live w /\
+  w_bytes w' = w_bytes w /\ (obj = false -> extra = false) /\ (k = Sys.KEnumeration -> extra = obj).
+Proof. exact ctor_any_oracle. Qed.
+Print Assumptions C18_constructors_report_failure.
